@@ -50,7 +50,8 @@ def ctype(node_type):
         return ("ptr", q[:-1].strip())
     if q in TYPES:
         return ("int",) + TYPES[q]
-    if q.startswith("enum ") or q in ("ares_bool_t", "ares_status_t", "ares_conn_err_t", "ares_dns_rec_type_t"):
+    if q.startswith("enum ") or q in ("ares_bool_t", "ares_status_t", "ares_conn_err_t", "ares_dns_rec_type_t",
+                                      "ares_server_bucket_t"):
         return ("int", False, 32)
     if q in ("float", "double", "long double"):
         return ("float",)
@@ -73,12 +74,33 @@ def ident(path):
 
 
 class Ptr:
-    def __init__(self, path):
-        self.path = path   # the object pointed to lives at this access path
+    def __init__(self, path, off=None, direct=False):
+        self.path = path       # the object pointed to lives at this access path
+        self.off = off         # element offset (Z term) for pointers into a byte region
+        self.direct = direct   # &x : dereferencing yields the path itself
+
+
+# byte regions: a pointer field and the field holding its length, e.g. buf->data / buf->data_len
+REGION_LEN = {"data": "data_len", "alloc_buf": "alloc_buf_len"}
+
+
+def region_len_path(path):
+    if "->" not in path:
+        return None
+    base, fld = path.rsplit("->", 1)
+    if fld in REGION_LEN:
+        return base + "->" + REGION_LEN[fld]
+    return None
 
 
 class Translator:
-    def __init__(self, fn, assume_nonnull=True):
+    def __init__(self, fn, assume_nonnull=True, inline=None):
+        self.inline_asts = inline or {}
+        self.inline_counter = 0
+        self.names = {}            # decl id -> path of the variable (scoped for inlined callees)
+        self.fun_inputs = set()    # inputs of type Z -> Z (memory regions)
+        self.copies = []
+        self.ret_stack = []
         self.fn = fn
         self.name = fn["name"]
         self.params = [c for c in fn.get("inner", []) if c["kind"] == "ParmVarDecl"]
@@ -100,7 +122,7 @@ class Translator:
     # ---------- pass 1: which pointer paths are written ----------
     def collect_written(self, n):
         k = n.get("kind")
-        if k in ("ForStmt", "WhileStmt", "DoStmt", "GotoStmt", "SwitchStmt", "LabelStmt"):
+        if k in ("ForStmt", "WhileStmt", "DoStmt", "GotoStmt", "LabelStmt"):
             raise Unsupported(k)
         for c in n.get("inner", []) or []:
             self.collect_written(c)
@@ -149,6 +171,8 @@ class Translator:
         if isinstance(p, tuple):
             return p[1]
         # pointer to an object at a path: its numeric value is an abstract input
+        if p.direct:
+            return "1"
         if p.path in self.param_objs:
             self.assumptions.add("pointer parameter %s is non-NULL" % p.path)
             return "1"
@@ -179,19 +203,24 @@ class Translator:
         if k == "ParenExpr":
             return self.lvalue_path(n["inner"][0], env)
         if k == "DeclRefExpr":
-            return n["referencedDecl"]["name"]
+            rd = n["referencedDecl"]
+            return self.names.get(rd.get("id"), rd["name"])
         if k == "MemberExpr":
             base = n["inner"][0]
             if n.get("isArrow"):
                 pv = self.expr(base, env)
-                if pv[0] != "p" or not isinstance(pv[1], Ptr):
+                if pv[0] != "p" or not isinstance(pv[1], Ptr) or pv[1].off is not None:
                     raise Unsupported("member access through non-object pointer")
+                if pv[1].direct:
+                    return pv[1].path + "." + n["name"]
                 return pv[1].path + "->" + n["name"]
             return self.lvalue_path(base, env) + "." + n["name"]
         if k == "UnaryOperator" and n.get("opcode") == "*":
             pv = self.expr(n["inner"][0], env)
-            if pv[0] != "p" or not isinstance(pv[1], Ptr):
+            if pv[0] != "p" or not isinstance(pv[1], Ptr) or pv[1].off is not None:
                 raise Unsupported("deref of non-object pointer")
+            if pv[1].direct:
+                return pv[1].path
             return pv[1].path + "->*"
         raise Unsupported("lvalue kind " + k)
 
@@ -286,6 +315,8 @@ class Translator:
 
     def let(self, term):
         """bind term to a fresh name in the tree being built"""
+        if self.lit(term) is not None or re.fullmatch(r"[A-Za-z_][A-Za-z0-9_']*", term.strip()):
+            return term.strip()
         nm = self.fresh("t")
         self.flush_guards()
         self.pre.append(("let", nm, term))
@@ -313,8 +344,22 @@ class Translator:
             if rd["kind"] == "EnumConstantDecl":
                 self.used_consts.add(rd["name"])
                 return ("z", rd["name"], False, 32)
-            path = rd["name"]
+            path = self.names.get(rd.get("id"), rd["name"])
             return self.read_path(path, n["type"], env)
+        if k == "ArraySubscriptExpr" or (k == "UnaryOperator" and n.get("opcode") == "*"):
+            base = n["inner"][0]
+            pv = self.expr(base, env)
+            if pv[0] == "p" and isinstance(pv[1], Ptr) and not pv[1].direct and region_len_path(pv[1].path):
+                idx = "0"
+                if k == "ArraySubscriptExpr":
+                    idx = self.as_z(self.expr(n["inner"][1], env))
+                return self.region_read(pv[1], idx, n, env)
+            if pv[0] == "p" and pv[1] is None:
+                # dereference of a pointer that is NULL on this path
+                self.guard("false", "NullDeref")
+                return ("z", "0", False, 8)
+            if k == "ArraySubscriptExpr":
+                raise Unsupported("array subscript on a pointer that is not a known byte region")
         if k == "MemberExpr" or (k == "UnaryOperator" and n.get("opcode") == "*"):
             path = self.lvalue_path(n, env)
             return self.read_path(path, n["type"], env)
@@ -360,7 +405,7 @@ class Translator:
             op = n["opcode"]
             sub = n["inner"][0]
             if op == "&":
-                return ("p", Ptr(self.lvalue_path(sub, env)))
+                return ("p", Ptr(self.lvalue_path(sub, env), direct=True))
             if op == "!":
                 return ("b", "(negb %s)" % self.as_b(self.expr(sub, env)))
             t = ctype(n["type"])
@@ -395,6 +440,16 @@ class Translator:
             l, r = n["inner"]
             if op == "=":
                 v = self.expr(r, env)
+                ll = l
+                while ll.get("kind") == "ParenExpr":
+                    ll = ll["inner"][0]
+                if ll.get("kind") == "ArraySubscriptExpr":
+                    bv = self.expr(ll["inner"][0], env)
+                    self.expr(ll["inner"][1], env)
+                    if bv[0] == "p" and isinstance(bv[1], Ptr) and not bv[1].direct and region_len_path(bv[1].path):
+                        raise Unsupported("store into a modelled byte region")
+                    self.assumptions.add("stores through caller-provided or freshly allocated buffers are in bounds (not modelled)")
+                    return v
                 path = self.lvalue_path(l, env)
                 if v[0] in ("z", "b"):
                     t = ctype(l["type"])
@@ -418,6 +473,8 @@ class Translator:
                     return ("b", b)
                 if (op == "||" and a == "true") or (op == "&&" and a == "false"):
                     return ("b", a)
+                if (op == "||" and b == "false") or (op == "&&" and b == "true"):
+                    return ("b", a)
                 return ("b", "(%s %s %s)" % (a, op, b))
             a = self.expr(l, env)
             b = self.expr(r, env)
@@ -436,6 +493,12 @@ class Translator:
             t = ctype(n["type"])
             if t[0] == "float":
                 return ("f",)
+            if t[0] == "ptr" and op in ("+", "-") and a[0] == "p" and isinstance(a[1], Ptr) and not a[1].direct \
+                    and region_len_path(a[1].path) and b[0] in ("z", "b"):
+                old = a[1].off if a[1].off is not None else "0"
+                zb = self.as_z(b)
+                new = "(%s %s %s)" % (old, op, zb) if old != "0" or op == "-" else zb
+                return ("p", Ptr(a[1].path, off=new))
             if t[0] != "int":
                 raise Unsupported("binary op on %s" % str(t))
             return ("z", self.arith(op, self.as_z(a), self.as_z(b), t[1], t[2]), t[1], t[2])
@@ -480,9 +543,40 @@ class Translator:
         if k == "CallExpr":
             return self.call(n, env)
         if k == "UnaryExprOrTypeTraitExpr":
+            # sizeof of a known integer type (or of an expression of such a type) is a constant
+            if n.get("name") == "sizeof":
+                at = n.get("argType")
+                if at is None and n.get("inner"):
+                    sub = n["inner"][0]
+                    while sub.get("kind") == "ParenExpr":
+                        sub = sub["inner"][0]
+                    at = sub.get("type")
+                if at is not None:
+                    t = ctype(at)
+                    if t[0] == "int":
+                        return ("z", str(t[2] // 8), False, 64)
             nm = self.add_input(self.node_name(n, "sizeof_"), "sizeof expression")
             return ("z", nm, False, 64)
         raise Unsupported("expression kind " + k)
+
+    def region_terms(self, p, env):
+        """(memory function input, length term, offset term) of a pointer into a byte region"""
+        lp = region_len_path(p.path)
+        ln = self.read_path(lp, {"qualType": "size_t"}, env)
+        mem = "mem_" + ident(p.path)
+        if mem not in self.input_set:
+            self.fun_inputs.add(mem)
+            self.add_input(mem, "contents of the byte region %s (index -> byte)" % p.path)
+        return mem, self.as_z(ln), (p.off if p.off is not None else "0")
+
+    def region_read(self, p, idx, n, env):
+        mem, ln, off = self.region_terms(p, env)
+        at = "(%s + %s)" % (off, idx) if off != "0" else idx
+        if idx == "0" and off != "0":
+            at = off
+        nm = self.let(at)
+        self.guard("((0 <=? %s) && (%s <? %s))" % (nm, nm, ln), "OutOfBounds")
+        return ("z", "((%s %s) mod 256)" % (mem, nm), False, 8)
 
     def float_scan(self, n, env):
         """evaluate integer sub-expressions of a float expression for their guards only"""
@@ -524,7 +618,25 @@ class Translator:
                 env["__zero__" + pre] = True
                 return ("z", "0", True, 32)
             raise Unsupported("memset form")
-        if name in ("memcpy", "memmove", "__builtin_memcpy", "strcpy", "strlen"):
+        if name in ("memcpy", "memmove", "__builtin_memcpy", "__builtin_memmove"):
+            dst = self.expr(args[0], env)
+            src = self.expr(args[1], env)
+            cnt = self.as_z(self.expr(args[2], env))
+            for (v, role) in ((src, "source"), (dst, "destination")):
+                if v[0] == "p" and isinstance(v[1], Ptr) and not v[1].direct and region_len_path(v[1].path):
+                    mem, ln, off = self.region_terms(v[1], env)
+                    self.guard("((%s =? 0) || ((0 <=? %s) && (%s + %s <=? %s)))" % (cnt, off, off, cnt, ln), "OutOfBounds")
+                    if role == "destination":
+                        raise Unsupported("memcpy into a modelled byte region")
+                elif role == "source" and v[0] == "p" and v[1] is None:
+                    self.guard("(%s =? 0)" % cnt, "NullDeref")
+                elif role == "source":
+                    raise Unsupported("memcpy from a pointer that is not a known byte region")
+                else:
+                    self.assumptions.add("the destination buffer of %s has room for the bytes copied (caller-provided or freshly allocated; not modelled)" % name)
+            self.copies.append((self.node_name(n, "copy"), src[1], cnt))
+            return ("z", "0", True, 32)
+        if name in ("strcpy", "strlen"):
             raise Unsupported("call to " + name)
         # abstract call: result is a fresh input; non-const pointer arguments are havocked
         for a in args:
@@ -541,6 +653,9 @@ class Translator:
                 const = qual.strip().startswith("const ") or "const" in qual.split("*")[0]
                 if inner["kind"] == "UnaryOperator" and inner.get("opcode") == "&":
                     const = False
+                if v is not None and v[0] == "p" and isinstance(v[1], Ptr) and v[1].off is not None:
+                    self.assumptions.add("callee %s only reads the bytes it is handed within the length it is given (not modelled)" % name)
+                    continue
                 if not const and v is not None and v[0] == "p" and isinstance(v[1], Ptr):
                     base = v[1].path
                     hv = self.node_name(n, "havoc")
@@ -596,12 +711,14 @@ class Translator:
     # ---------- statements ----------
     def run(self):
         self.used_consts = set()
+        self.scope_prefix = ""
         self.zeroed = []
         self.param_objs = set()
         env = {}
         self.scalar_params = []
         for p in self.params:
             t = ctype(p["type"])
+            self.names[p.get("id")] = p["name"]
             if t[0] == "int":
                 self.scalar_params.append(p["name"])
                 env[p["name"]] = ("z", p["name"], t[1], t[2])
@@ -646,12 +763,36 @@ class Translator:
         if k == "NullStmt":
             return self.stmts(rest, env)
         if k == "DeclStmt":
+            ds = [d for d in s.get("inner", []) if d.get("kind") == "VarDecl"]
+            if len(ds) == 1:
+                init1 = [c for c in ds[0].get("inner", []) if "kind" in c and c["kind"] not in ("FullComment",)]
+                call = self.inline_call_node(init1[0]) if init1 else None
+                if call is not None:
+                    d = ds[0]
+                    t = ctype(d["type"])
+                    vname = self.scope_prefix + d["name"]
+                    self.names[d.get("id")] = vname
+
+                    def k_decl(v, env2, t=t, vname=vname):
+                        if t[0] == "int" and v is not None:
+                            if v[0] != "z":
+                                v = self.cast_int(v, t[1], t[2])
+                        env2 = dict(env2)
+                        if v is not None:
+                            env2[vname] = v
+                        return self.stmts(rest, env2)
+                    return self.inline(call, env, k_decl)
             self.begin()
             for d in s.get("inner", []):
                 if d["kind"] != "VarDecl":
                     raise Unsupported("decl " + d["kind"])
                 init = [c for c in d.get("inner", []) if "kind" in c and c["kind"] not in ("FullComment",)]
                 t = ctype(d["type"])
+                if t[0] == "other" and not init and re.match(r"(struct |union )?[A-Za-z_][A-Za-z0-9_]*$", t[1].strip()):
+                    # uninitialised local struct: its fields are read by access path
+                    # ("v.f"); a field read before any write or call yields an arbitrary input
+                    self.names[d.get("id")] = self.scope_prefix + d["name"]
+                    continue
                 if t[0] not in ("int", "ptr", "float"):
                     raise Unsupported("local %s of type %s" % (d["name"], t))
                 if init:
@@ -660,13 +801,27 @@ class Translator:
                         v = self.cast_int(v, t[1], t[2]) if v[0] != "z" else v
                         nm = self.let(self.as_z(v))
                         v = ("z", nm, t[1], t[2])
-                    env[d["name"]] = v
+                    env[self.scope_prefix + d["name"]] = v
+                    self.names[d.get("id")] = self.scope_prefix + d["name"]
                 elif t[0] == "float":
-                    env[d["name"]] = ("f",)
+                    env[self.scope_prefix + d["name"]] = ("f",)
+                    self.names[d.get("id")] = self.scope_prefix + d["name"]
+                else:
+                    self.names[d.get("id")] = self.scope_prefix + d["name"]
                 # uninitialised integer/pointer local: a later read yields an arbitrary input
             items = self.take()
             return self.wrap_items(items, self.stmts(rest, env))
         if k == "ReturnStmt":
+            if s.get("inner"):
+                call = self.inline_call_node(s["inner"][0])
+                if call is not None:
+                    rt = self.ret_t
+
+                    def k_ret(v, env2, rt=rt):
+                        if rt[0] == "int" and v is not None and v[0] != "z":
+                            v = self.cast_int(v, rt[1], rt[2])
+                        return ("ret", v, dict(env2))
+                    return self.inline(call, env, k_ret)
             self.begin()
             v = None
             if s.get("inner"):
@@ -688,11 +843,154 @@ class Translator:
             then_t = self.stmts([inner[1]] + rest, dict(env))
             else_t = self.stmts(([inner[2]] if len(inner) > 2 else []) + rest, dict(env))
             return self.wrap_items(items, ("if", c, then_t, else_t))
-        # expression statement
+        if k == "SwitchStmt":
+            return self.switch(s, rest, env)
+        if k in ("BreakStmt", "ContinueStmt", "CaseStmt", "DefaultStmt"):
+            raise Unsupported(k + " outside the supported switch form")
+        # expression statement: "x = f(..)" / "f(..)" with f inlinable
+        if k == "BinaryOperator" and s.get("opcode") == "=":
+            call = self.inline_call_node(s["inner"][1])
+            if call is not None:
+                lhs = s["inner"][0]
+
+                def k_asg(v, env2, lhs=lhs):
+                    env2 = dict(env2)
+                    self.begin()
+                    path = self.lvalue_path(lhs, env2)
+                    lt = ctype(lhs["type"])
+                    if lt[0] == "int" and v is not None and v[0] != "z":
+                        v = self.cast_int(v, lt[1], lt[2])
+                    if v is not None:
+                        self.write_path(path, v, env2)
+                    items2 = self.take()
+                    return self.wrap_items(items2, self.stmts(rest, env2))
+                return self.inline(call, env, k_asg)
+        call = self.inline_call_node(s)
+        if call is not None:
+            return self.inline(call, env, lambda v, env2: self.stmts(rest, dict(env2)))
         self.begin()
         self.expr(s, env)
         items = self.take()
         return self.wrap_items(items, self.stmts(rest, env))
+
+    # ---------- inlining of callees from the same source ----------
+    def inline_call_node(self, n):
+        while n.get("kind") in ("ImplicitCastExpr", "ParenExpr", "CStyleCastExpr") and n.get("castKind") not in ("LValueToRValue",):
+            n = n["inner"][0]
+        if n.get("kind") == "CallExpr":
+            try:
+                nm = self.callee_name(n)
+            except Unsupported:
+                return None
+            if nm in self.inline_asts:
+                return n
+        return None
+
+    def graft(self, tree, k):
+        if tree[0] == "ret":
+            return k(tree[1], tree[2])
+        if tree[0] == "let":
+            return ("let", tree[1], tree[2], self.graft(tree[3], k))
+        if tree[0] == "guard":
+            return ("guard", tree[1], tree[2], self.graft(tree[3], k))
+        if tree[0] == "if":
+            return ("if", tree[1], self.graft(tree[2], k), self.graft(tree[3], k))
+        raise Exception(tree)
+
+    def inline(self, call, env, k):
+        name = self.callee_name(call)
+        callee = self.inline_asts[name]
+        self.inline_counter += 1
+        if self.inline_counter > 60:
+            raise Unsupported("too many inlined calls")
+        prefix = "i%d_%s_" % (self.inline_counter, name)
+        params = [c for c in callee.get("inner", []) if c["kind"] == "ParmVarDecl"]
+        body = [c for c in callee.get("inner", []) if c["kind"] == "CompoundStmt"][0]
+        for c in ("ForStmt", "WhileStmt", "DoStmt", "GotoStmt"):
+            if ('"kind": "%s"' % c) in json.dumps(body):
+                raise Unsupported("inlined callee %s contains %s" % (name, c))
+        args = call["inner"][1:]
+        self.begin()
+        vals = [self.expr(a, env) for a in args]
+        items = self.take()
+        env = dict(env)
+        for pdecl, v in zip(params, vals):
+            t = ctype(pdecl["type"])
+            if t[0] == "int":
+                v = self.cast_int(v, t[1], t[2]) if v[0] != "z" else v
+                self.begin()
+                nmv = self.let(self.as_z(v))
+                items += self.take()
+                v = ("z", nmv, t[1], t[2])
+            self.names[pdecl.get("id")] = prefix + pdecl["name"]
+            env[prefix + pdecl["name"]] = v
+        rt = callee["type"]["qualType"].split("(")[0].strip()
+        self.ret_stack.append((self.ret_t, self.scope_prefix))
+        self.ret_t = ctype({"qualType": rt})
+        self.scope_prefix = prefix
+        tree = self.stmts(list(body.get("inner", []) or []), env)
+        self.ret_t, self.scope_prefix = self.ret_stack.pop()
+        return self.wrap_items(items, self.graft(tree, k))
+
+    def switch(self, s, rest, env):
+        """switch over integer constants whose body is a flat list of case/default labels,
+        statements and top-level `break`s (fall-through is honoured); translated to an
+        if-chain on the (let-bound) controlling value.  A `break` nested inside another
+        statement is refused."""
+        inner = [c for c in s.get("inner", []) if "kind" in c]
+        if len(inner) != 2 or inner[1]["kind"] != "CompoundStmt":
+            raise Unsupported("switch form")
+        self.begin()
+        cv = self.expr(inner[0], env)
+        nm = self.let(self.as_z(cv))
+        items = self.take()
+        seq = []          # ("label", const term | None) | ("stmt", node) | ("break",)
+
+        def has_break(n):
+            if n.get("kind") == "BreakStmt":
+                return True
+            if n.get("kind") in ("SwitchStmt",):
+                return False
+            return any(has_break(c) for c in n.get("inner", []) or [] if isinstance(c, dict))
+
+        def add(n):
+            k = n["kind"]
+            if k == "CaseStmt":
+                parts = [c for c in n["inner"] if "kind" in c]
+                if len(parts) != 2:
+                    raise Unsupported("case range")
+                self.begin()
+                c = self.expr(parts[0], env)
+                if self.take():
+                    raise Unsupported("non-constant case label")
+                seq.append(("label", self.as_z(c)))
+                add(parts[1])
+            elif k == "DefaultStmt":
+                seq.append(("label", None))
+                add([c for c in n["inner"] if "kind" in c][-1])
+            elif k == "BreakStmt":
+                seq.append(("break",))
+            else:
+                if has_break(n):
+                    raise Unsupported("break nested inside a statement of a switch")
+                seq.append(("stmt", n))
+        for c in inner[1].get("inner", []) or []:
+            add(c)
+
+        def code_from(i):
+            out = []
+            for it in seq[i:]:
+                if it[0] == "break":
+                    return out
+                if it[0] == "stmt":
+                    out.append(it[1])
+            return out
+        labels = [(i, it[1]) for i, it in enumerate(seq) if it[0] == "label"]
+        default = [i for (i, c) in labels if c is None]
+        tree = self.stmts((code_from(default[0]) if default else []) + rest, dict(env))
+        for (i, c) in reversed([x for x in labels if x[1] is not None]):
+            tree = ("if", "(%s =? %s)" % (nm, c), self.stmts(code_from(i) + rest, dict(env)), tree)
+        return self.wrap_items(items, tree)
 
     # ---------- printing ----------
     def out_tuple(self, v, env):
@@ -733,7 +1031,7 @@ class Translator:
         body = self.pp(tree, 1)
         nouts = (0 if self.ret_t[0] == "void" else 1) + len(self.written)
         args = self.scalar_params + [i for (i, _) in self.inputs]
-        sig = " ".join("(%s : Z)" % a for a in args)
+        sig = " ".join(("(%s : Z -> Z)" % a) if a in self.fun_inputs else ("(%s : Z)" % a) for a in args)
         rty = "unit" if nouts == 0 else " * ".join(["Z"] * nouts)
         doc = ["(* %s — generated from the working tree.\n   inputs:" % self.name]
         for a in self.scalar_params:
@@ -744,6 +1042,8 @@ class Translator:
         doc.append("   outputs: " + ", ".join(outs) if outs else "   outputs: none")
         for a in sorted(self.assumptions):
             doc.append("   assumes: " + a)
+        if self.inline_counter:
+            doc.append("   inlined callees: " + ", ".join(sorted(self.inline_asts)))
         doc.append("*)")
         txt = "\n".join(doc) + "\nDefinition %s%s %s : outcome (%s) :=\n%s.\n" % (prefix, self.name, sig, rty, body)
         return txt, args, outs
@@ -773,9 +1073,18 @@ def clang_ast(repo, cfile, fn, config_dir):
     raise Unsupported("function %s not found (with a body) in %s: %s" % (fn, cfile, p.stderr.decode()[-500:]))
 
 
-def translate(repo, cfile, fn, config_dir):
+_AST_CACHE = {}
+
+
+def translate(repo, cfile, fn, config_dir, inline=()):
     ast = clang_ast(repo, cfile, fn, config_dir)
-    tr = Translator(ast)
+    inl = {}
+    for nm in inline:
+        key = (repo, cfile, nm)
+        if key not in _AST_CACHE:
+            _AST_CACHE[key] = clang_ast(repo, cfile, nm, config_dir)
+        inl[nm] = _AST_CACHE[key]
+    tr = Translator(ast, inline=inl)
     txt, args, outs = tr.gallina()
     return txt, args, outs, tr.used_consts
 
@@ -783,5 +1092,5 @@ def translate(repo, cfile, fn, config_dir):
 if __name__ == "__main__":
     repo = os.environ.get("VERIF_REPO", "/repo")
     cd = os.path.join(repo, "_build")
-    txt, args, outs, consts = translate(repo, sys.argv[1], sys.argv[2], cd)
+    txt, args, outs, consts = translate(repo, sys.argv[1], sys.argv[2], cd, inline=sys.argv[3:])
     print(txt)
